@@ -144,5 +144,11 @@ CLAIMS['C23'] = {
   'note': _TB + 'Devices, program object and event table are recording stand-ins; the populated state is one concrete scenario. One defect found and fixed (CLEAR kept the GOSUB stack).',
 }
 
+CLAIMS['C36'] = {
+  'text': 'Proof of the cursor arithmetic for symbolic screen sizes, scroll windows and positions: TextScreen.set_pos/_wrap_around_and_scroll_as_needed keep the cursor on the screen and inside the scroll window, wrap at the edges as specified and scroll only at the bottom of the window when allowed and only the rows of the window; '
+          'LOCATE moves exactly to the requested cell or raises Illegal function call without moving; CSRLIN/POS report the cursor with the overflow convention; VIEW PRINT validates and sets the window. Text placement and SCREEN() contents are not covered.',
+  'note': _TB + 'Page buffer and cursor sprite are recording stand-ins; set_pos precondition -width < col <= 2*width as its callers produce.',
+}
+
 NOT_APPLICABLE = {
 }
